@@ -30,7 +30,7 @@ ASSUMPTIONS = ['base64, gzip, urllib.parse, hashlib of CPython', 'routes are com
                'substitution is not invertible for them; observation recorded in DESIGN.md)']
 REQUIRED = ['evaluations', 'route_groups_checked', 'route:path', 'route:path-upper', 'route:stream-kind', 'route:stream-name',
             'route:svgz-path', 'route:svgz-kind', 'route:png-data-uri', 'route:svg-data-uri', 'route:svg-inline', 'route:cli-main', 'route:cli-main-upper',
-            'route:cli-subprocess', 'cli_terminal_checked', 'sequence_saves_checked', 'sequence_cli_checked', 'unknown_extension_refused',
+            'route:cli-subprocess', 'cli_terminal_checked', 'cli_terminal_other_stdout_encoding', 'cli_content_with_trailing_white_space', 'sequence_saves_checked', 'sequence_cli_checked', 'unknown_extension_refused',
             'audit_open_events']
 TIMEOUT = {'quick': 3600, 'thorough': 21600}
 KINDS = ['png', 'svg', 'eps', 'pdf', 'txt', 'ans', 'pbm', 'pam', 'ppm', 'xbm', 'xpm', 'tex']
@@ -158,13 +158,26 @@ def gen_cases(tier, seed):
             mk['mode'] = rng.choice(['numeric', 'NUMERIC', 'Numeric', 'alphanumeric', 'ALPHANUMERIC'])
         if rng.random() < 0.15:
             mk['encoding'] = rng.choice(['utf-8', 'latin1'])
-        cases.append({'kind': 'routes', 'out': kind, 'content': content, 'make': mk, 'kw': kw,
+        split = False
+        if mk.get('micro') is False and set(mk) <= {'micro', 'error', 'mask', 'boost_error', 'explicit_no_micro', 'error_dash'}:
+            r = rng.random()
+            if r < 0.15:
+                # white space at the end of the content is content (the command line hands it over untouched)
+                content += rng.choice(['\n', '\r\n', '\r', ' ', '\t', '\n\n', ' \n'])
+            elif r < 0.3 and ' ' in content.strip() and '  ' not in content and not any(w.startswith('-') for w in content.split(' ')):
+                split = True      # several content arguments are joined with one blank
+        cases.append({'kind': 'routes', 'out': kind, 'content': content, 'make': mk, 'kw': kw, 'split_args': split,
                       'subprocess': rng.random() < (0.12 if tier == 'quick' else 0.05)})
     for i in range(40 if tier == 'quick' else 400):
         micro = rng.random() < 0.3
         cases.append({'kind': 'terminal', 'content': gen.content_for_bits('alphanumeric', rng.randint(1, 8 if micro else 30)),
                       'border': rng.choice([None, 0, 1, 3]), 'compact': rng.random() < 0.5, 'micro': micro,
                       'subprocess': i % 5 == 0})
+    # always: every stdout encoding of run_terminal (chosen by the content length mod 6) with and without --compact
+    for n_ in range(6, 12):
+        for compact in (True, False):
+            cases.append({'kind': 'terminal', 'content': gen.content_for_bits('alphanumeric', n_), 'border': rng.choice([None, 1]),
+                          'compact': compact, 'micro': False, 'subprocess': True})
     names = ['seq.png', 'out.svg', 'a.b.c.txt', 'UPPER.PNG', 's{0}q.png', 'brace{x}.svg', 'ünï.txt', 'sp ace.pbm', 'x.Svg', '{}.eps',
              'percent%s.xbm', 'trail.dot.pdf']
     for i in range(36 if tier == 'quick' else 400):
@@ -335,7 +348,12 @@ def run_routes(case, rec, tmp, opened):
     flags = cli_flags(kind, kw)
     if flags is not None:
         p = os.path.join(tmp, 'r10.%s' % kind)
-        argv = ['--output=%s' % p] + make_flags(case['make'], case['content']) + flags + [case['content']]
+        argv = ['--output=%s' % p] + make_flags(case['make'], case['content']) + flags + \
+            (case['content'].split(' ') if case.get('split_args') and case['content'] == case['content'].strip() else [case['content']])
+        if case.get('split_args'):
+            rec.count('cli_content_in_several_arguments')
+        if case['content'] != case['content'].rstrip():
+            rec.count('cli_content_with_trailing_white_space')
         try:
             rc = cli.main(argv)
         except SystemExit as ex:
@@ -405,6 +423,19 @@ def run_terminal(case, rec, tmp):
         rec.count('cli_terminal_subprocess')
         if pr.returncode is not None and (pr.returncode != 0 or pr.stdout.decode('utf-8') != exp.getvalue()):
             rec.deviation('C12', 'cli-terminal-differs', {'argv': argv, 'rc': pr.returncode, 'subprocess': True})
+        # the same pair under another encoding / error handler of the standard output: whatever QRCode.terminal prints
+        # to that stdout, the command line tool prints the same bytes
+        ioenc = ['ascii:backslashreplace', 'latin-1:replace', 'cp437', 'utf-16', 'ascii:xmlcharrefreplace', 'cp1252:ignore'][len(case['content']) % 6]
+        env = dict(core.child_env(), PYTHONIOENCODING=ioenc)
+        prog = ('import segno; segno.make(%r, micro=%r).terminal(border=%r, compact=%r)'
+                % (case['content'], case['micro'], case['border'], case['compact']))
+        pa = core.run_sub([sys.executable, '-c', prog], capture_output=True, env=env)
+        pc = core.run_sub([sys.executable, '-m', 'segno.cli'] + argv, capture_output=True, env=env)
+        if pa.returncode == 0 and pc.returncode is not None:
+            rec.count('cli_terminal_other_stdout_encoding')
+            if pc.returncode != 0 or pc.stdout != pa.stdout:
+                rec.deviation('C12', 'cli-terminal-differs', {'argv': argv, 'rc': pc.returncode, 'subprocess': True, 'PYTHONIOENCODING': ioenc,
+                                                              'len': (len(pc.stdout), len(pa.stdout))})
 
 
 def run_sequence(case, rec, tmp, opened):
